@@ -199,6 +199,10 @@ func (o *Op) line() string {
 		return fmt.Sprintf("%s %d %d %d %d", o.Kind, o.Tx, o.Idx, o.Who, ok)
 	case "updctx":
 		return fmt.Sprintf("updctx %d %d %d %s %s %d %d %d %d", o.Tx, o.Idx, o.Who, listLine(o.Provs), coinsLine(o.Dep), o.Timeout, o.Freq, o.Total, ok)
+	case "modupd": // keeper.UpdateRequestContext called by the owning module: tx idx who n prov... thr coins timeout freq total
+		return fmt.Sprintf("modupd %d %d %d %s %d %s %d %d %d", o.Tx, o.Idx, o.Who, listLine(o.Provs), o.Thr, coinsLine(o.Dep), o.Timeout, o.Freq, o.Total)
+	case "modpause", "modstart", "modkill": // keeper.{Pause,Start,Kill}RequestContext called by the owning module
+		return fmt.Sprintf("%s %d %d %d", o.Kind, o.Tx, o.Idx, o.Who)
 	case "withdraw":
 		return fmt.Sprintf("withdraw %d %d %d", o.Owner, o.Prov, ok)
 	case "transfer":
@@ -305,8 +309,18 @@ func (o *Op) msg(a *Atoms) sdk.Msg {
 	return nil
 }
 
+// isModOp: the keeper API driven by the module that owns a context.
+func (o *Op) isModOp() bool {
+	switch o.Kind {
+	case "modupd", "modpause", "modstart", "modkill":
+		return true
+	}
+	return false
+}
+
 // signer of a message op (the account the SDK would debit fees from and whose
-// signature it checks); used by the authority monitor.
+// signature it checks); used by the authority monitor. Keeper-API ops (modcall, modupd,
+// modpause, modstart, modkill) carry no signature: 0.
 func (o *Op) signer() int64 {
 	switch o.Kind {
 	case "define", "bind", "update", "disable", "enable", "refunddep", "setwd", "withdraw":
